@@ -175,10 +175,7 @@ def cellComplex (x : Cell) : Outcome (FloatV × FloatV) :=
   match x.str with
   | some f => f.complexVal
   | none =>
-    if x.null then
-      match x.na with
-      | .nan => .ok (.nan, .fin 0 0)          -- complex(nan)
-      | _ => .raises "TypeError"              -- complex(None) / complex(pd.NA)
+    if x.null then .ok (.nan, .fin 0 0)       -- a missing value of any kind stays missing (as repaired: `pd.isna(val)`)
     else .raises "TypeError"
 
 /-- `string_is_complex` -/
